@@ -1,5 +1,7 @@
 use crate::engine::auth::db_ops::load_from_db;
-use crate::engine::auth::permission_ops::{get_permissions, grant_permission, revoke_permission};
+use crate::engine::auth::permission_ops::{
+    get_permissions, grant_permission, revoke_permission, update_permission,
+};
 use crate::engine::auth::signature::{parse_auth, verify_signature};
 use crate::engine::auth::storage::{AuthStorage, AuthWalStorage};
 use crate::engine::auth::types::{
@@ -215,6 +217,26 @@ impl AuthManager {
             user_id,
             event_type,
             permission_set,
+        )
+        .await
+    }
+
+    /// Sets / clears single permission bits of a user for an event type (merge under the lock).
+    pub async fn update_permission(
+        &self,
+        user_id: &str,
+        event_type: &str,
+        set: PermissionSet,
+        clear: PermissionSet,
+    ) -> AuthResult<()> {
+        update_permission(
+            &self.cache,
+            &self.permission_cache,
+            &self.storage,
+            user_id,
+            event_type,
+            set,
+            clear,
         )
         .await
     }
